@@ -1,0 +1,21 @@
+//go:build verif
+
+package verifbridge
+
+import (
+	"github.com/nspcc-dev/neofs-node/internal/signed256"
+)
+
+// S256 re-exports [signed256.Int].
+type S256 = signed256.Int
+
+// S256ParseDecimal re-exports [signed256.ParseDecimal].
+func S256ParseDecimal(s string) (S256, error) { return signed256.ParseDecimal(s) }
+
+// S256ParseNormalizedDecimal re-exports [signed256.ParseNormalizedDecimal].
+func S256ParseNormalizedDecimal(neg bool, digits string) (S256, error) {
+	return signed256.ParseNormalizedDecimal(neg, digits)
+}
+
+// S256DecodeBytes re-exports [signed256.DecodeBytes].
+func S256DecodeBytes(b []byte) (S256, error) { return signed256.DecodeBytes(b) }
